@@ -1,106 +1,400 @@
 /-
-  C15 — the lock protocol of vita::cache (src/kernel/cache.cc) as a transition system.
+  C15 — vita::cache (src/kernel/cache.cc) shared by threads: the lock protocol and the table as a
+  transition system.
 
-  One contested slot of the table.  A fitness value is `L` machine words; the value stored by the
-  insert `(k, id)` is `L` copies of the token `(k, id)`, so a torn or foreign read is visible in
-  the result.  Any number of threads (`Tid = Nat`), each running find / insert / clear / clear(key)
-  one atomic step at a time.  `std::shared_mutex` is modelled BY ITS SPECIFICATION: a shared
-  acquisition is enabled iff no thread is in a writer state, an exclusive one iff no thread is in
-  a lock-holding state; there are no counters – the holders are read off the thread states.
-
-  Two variants of `find`:
-    `StepV`  the value is copied while the shared lock is held   (find returns fitness_t)
-    `StepR`  the lock is released first and the caller copies through the returned reference
-             (find returned `const fitness_t &` – the code before the fix)
+  * The table: any number of slots (`tab : Nat → Slot`), `idx : Key → Nat` (C++ `index()`), the
+    epoch counter `seal` that wraps after `M` (C++ `UINT_MAX`).  A fitness value is `L` machine
+    words; the value of the store `(k, id)` is `L` copies of the token `(k, id)` (`val`), so a torn or
+    a foreign read is visible in the result.
+  * `Mem.find / insert / clear / clearKey / save / load` are the SEQUENTIAL cache (the same functions
+    as C04's `Cache`, over abstract keys and token values): they are the specification object of the
+    linearizability statement and, at the same time, what each critical section does to the table.
+  * Threads (`Tid = Nat`, any number) run find / insert / clear() / clear(key) / save / load and the
+    composite `evaluator_proxy::operator()` (find; on a miss evaluate holding NO lock; insert) one
+    atomic step at a time.  `find` copies the value word by word, `insert` writes key, words (one by
+    one) and seal; `load` writes entry by entry; `save` reads slot by slot.
+  * `std::shared_mutex` BY ITS SPECIFICATION: a shared acquisition is enabled iff nobody holds the
+    lock exclusively, an exclusive one iff nobody holds it at all.  Holders are read off the thread
+    states through the LOCK DISCIPLINE `d : Disc` – which lock each member function takes – so the
+    same system also describes the broken variants (`find` takes no lock, `insert` takes the shared
+    lock, `find` hands out a reference, …); lean/Vita/C15/Gen.lean holds the discipline extracted
+    from the current cache.cc.
+  * Ghost state: `abs` (the sequential cache, advanced once per operation at its linearization
+    point) and `lin` (the linearized history, newest first, with the answers of the specification).
 -/
 namespace Vita.C15
 
 abbrev Tid := Nat
 abbrev Key := Nat
-/-- a token identifies one insert: (key, id) -/
+/-- a token identifies one stored value: (key, id) -/
 abbrev Tok := Key × Nat
+
+/-! ### lock discipline -/
+
+inductive LK where
+  | none | shared | excl
+deriving DecidableEq, Repr
+
+def LK.atLeastShared : LK → Bool
+  | .none => false
+  | _ => true
+
+/-- which lock each public member function holds around its table accesses; `findRef`: find hands
+    out a reference into the table (the copy happens after the lock is released) -/
+structure Disc where
+  find : LK
+  findRef : Bool
+  insert : LK
+  clear : LK
+  clearKey : LK
+  save : LK
+  load : LK
+deriving DecidableEq, Repr
+
+/-- every write under the exclusive lock, every read under at least the shared lock, nothing escapes -/
+def Disc.ok (d : Disc) : Bool :=
+  d.find.atLeastShared && !d.findRef && d.insert == .excl && d.clear == .excl && d.clearKey == .excl &&
+  d.save.atLeastShared && d.load == .excl
+
+/-- cache.cc as it is: shared for find/save, exclusive for insert/clear/clear(key)/load -/
+def Disc.canonical : Disc := ⟨.shared, false, .excl, .excl, .excl, .shared, .excl⟩
+
+/-! ### the table and the sequential cache -/
+
+structure Slot where
+  key : Option Key          -- slot::hash (none = hash_t())
+  sl : Nat                  -- slot::seal
+  words : List Tok          -- slot::fitness
+deriving DecidableEq, Repr
+
+structure Cfg where
+  L : Nat                   -- words per value
+  M : Nat                   -- the largest seal (UINT_MAX)
+  idx : Key → Nat           -- cache::index
+  dom : List Nat            -- the slots `save` walks over
+
+structure Mem where
+  ep : Nat                  -- seal_ (`seal` is a Lean keyword)
+  tab : Nat → Slot
+
+def setSlot (t : Nat → Slot) (i : Nat) (x : Slot) : Nat → Slot := fun j => if j = i then x else t j
+
+/-- change one slot -/
+def Mem.modSlot (m : Mem) (i : Nat) (f : Slot → Slot) : Mem := { m with tab := setSlot m.tab i (f (m.tab i)) }
+
+def Slot.fresh (L : Nat) : Slot := ⟨none, 0, List.replicate L (0, 0)⟩
+
+/-- cache::cache -/
+def Mem.init (c : Cfg) : Mem := ⟨1, fun _ => Slot.fresh c.L⟩
+
+/-- the value of the store `(k, id)` -/
+def val (c : Cfg) (k : Key) (id : Nat) : List Tok := List.replicate c.L (k, id)
+
+/-- cache::find -/
+def Mem.find (c : Cfg) (m : Mem) (k : Key) : Option (List Tok) :=
+  if m.ep = (m.tab (c.idx k)).sl ∧ (m.tab (c.idx k)).key = some k then some (m.tab (c.idx k)).words else none
+
+/-- cache::insert -/
+def Mem.insert (c : Cfg) (m : Mem) (k : Key) (v : List Tok) : Mem :=
+  { m with tab := setSlot m.tab (c.idx k) ⟨some k, m.ep, v⟩ }
+
+/-- cache::clear() (wipes the table when the seal wraps around) -/
+def Mem.clear (c : Cfg) (m : Mem) : Mem :=
+  if m.ep = c.M then ⟨1, fun _ => Slot.fresh c.L⟩ else { m with ep := m.ep + 1 }
+
+/-- cache::clear(const hash_t &) -/
+def Mem.clearKey (c : Cfg) (m : Mem) (k : Key) : Mem :=
+  m.modSlot (c.idx k) (fun x => { x with key := none })
+
+def saveSlot (ep : Nat) (s : Slot) : Option (Key × List Tok) :=
+  if s.sl = ep then s.key.map (fun k => (k, s.words)) else none
+
+def Mem.saveOf (m : Mem) : List Nat → List (Key × List Tok)
+  | [] => []
+  | i :: r => (saveSlot m.ep (m.tab i)).toList ++ m.saveOf r
+
+/-- cache::save: the entries of the current epoch, in table order -/
+def Mem.save (c : Cfg) (m : Mem) : List (Key × List Tok) := m.saveOf c.dom
+
+def loadTab (c : Cfg) (sl : Nat) : List Tok → (Nat → Slot) → (Nat → Slot)
+  | [], t => t
+  | (k, id) :: es, t => loadTab c sl es (setSlot t (c.idx k) ⟨some k, sl, val c k id⟩)
+
+/-- cache::load: the entries are written one after the other, the seal last; a load that fails
+    (`ok = false`: the stream ended early) has written the entries it could read and keeps the seal -/
+def Mem.load (c : Cfg) (m : Mem) (sl : Nat) (es : List Tok) (ok : Bool) : Mem :=
+  ⟨if ok then sl else m.ep, loadTab c sl es m.tab⟩
+
+/-! ### linearized history -/
+
+inductive Ev where
+  | find (t : Tid) (k : Key) (r : Option (List Tok))
+  | insert (t : Tid) (k : Key) (id : Nat)
+  | clear (t : Tid)
+  | clearKey (t : Tid) (k : Key)
+  | save (t : Tid) (out : List (Key × List Tok))
+  | load (t : Tid) (sl : Nat) (es : List Tok) (ok : Bool)
+deriving DecidableEq, Repr
+
+def Ev.tid : Ev → Tid
+  | .find t .. | .insert t .. | .clear t | .clearKey t _ | .save t _ | .load t .. => t
+
+/-- the effect of an operation on the sequential cache -/
+def Mem.apply (c : Cfg) (m : Mem) : Ev → Mem
+  | .find .. => m
+  | .insert _ k id => m.insert c k (val c k id)
+  | .clear _ => m.clear c
+  | .clearKey _ k => m.clearKey c k
+  | .save .. => m
+  | .load _ sl es ok => m.load c sl es ok
+
+/-- the recorded answer is the answer of the sequential cache -/
+def Mem.legal (c : Cfg) (m : Mem) : Ev → Bool
+  | .find _ k r => r == m.find c k
+  | .save _ out => out == m.save c
+  | _ => true
+
+/-- run a history (NEWEST FIRST) on the sequential cache, checking every recorded answer -/
+def replay (c : Cfg) : List Ev → Option Mem
+  | [] => some (Mem.init c)
+  | e :: l =>
+    match replay c l with
+    | some m => if m.legal c e then some (m.apply c e) else none
+    | none => none
+
+/-- the most recent linearized operation of thread `t` -/
+def lastOf (t : Tid) : List Ev → Option Ev
+  | [] => none
+  | e :: l => if e.tid = t then some e else lastOf t l
+
+/-! ### threads -/
 
 inductive T where
   | idle
-  | fLocked (k : Key)                       -- find: shared lock taken
-  | fCopy (k : Key) (acc : List Tok)        -- find: key and seal matched, copying under the lock
-  | fMissed (k : Key)                       -- find: no match, still under the lock
-  | fDone (k : Key) (res : Option (List Tok))  -- find has returned (lock released)
-  | rCopy (k : Key) (acc : List Tok)        -- (reference variant) lock released, caller copies
-  | wLocked (k : Key) (id : Nat)            -- insert: exclusive lock taken
-  | wWrite (k : Key) (id : Nat) (i : Nat)   -- insert: slot being overwritten, `i` words written
-  | cLocked                                 -- clear()/clear(key): exclusive lock taken
-  | cCleared                                -- clear: slot invalidated, lock still held
+  | fLocked (k : Key)                          -- find: lock taken (10)
+  | fCopy (k : Key) (acc : List Tok)           -- find: seal and key matched (11), copying under the lock
+  | fMissed (k : Key)                          -- find: no match, still under the lock
+  | fDone (k : Key) (res : Option (List Tok))  -- find has returned
+  | rCopy (k : Key) (acc : List Tok)           -- (reference variant) lock released, the caller copies
+  | pEval (k : Key)                            -- proxy: missed, evaluating – holds NO lock
+  | pDone (k : Key) (v : List Tok)             -- proxy: about to return `v`
+  | wLocked (k : Key) (id : Nat) (p : Bool)    -- insert: lock taken (p: called by the proxy)
+  | wWrite (k : Key) (id : Nat) (p : Bool) (i : Nat)  -- insert: key written, `i` words written
+  | wFin (k : Key) (id : Nat) (p : Bool)       -- insert: seal written, before the release
+  | cLocked | cDone                            -- clear()
+  | kLocked (k : Key) | kDone                  -- clear(key)
+  | sLocked                                    -- save: lock taken
+  | sRun (rest : List Nat) (out : List (Key × List Tok))   -- save: slots still to visit, entries written
+  | sDone (out : List (Key × List Tok))        -- save has returned
+  | lRun (sl : Nat) (es : List Tok) (ok : Bool)  -- load: entries still to write
+  | lFin                                       -- load: seal written, before the release
 deriving DecidableEq, Repr
 
-/-- holds the exclusive lock -/
-def T.isW : T → Bool
-  | .wLocked .. | .wWrite .. | .cLocked | .cCleared => true
-  | _ => false
+/-- the lock a thread in state `x` holds, given the discipline -/
+def lockOf (d : Disc) : T → LK
+  | .fLocked _ | .fCopy .. | .fMissed _ => d.find
+  | .wLocked .. | .wWrite .. | .wFin .. => d.insert
+  | .cLocked | .cDone => d.clear
+  | .kLocked _ | .kDone => d.clearKey
+  | .sLocked | .sRun .. => d.save
+  | .lRun .. | .lFin => d.load
+  | _ => .none
 
-/-- holds the shared lock -/
-def T.isR : T → Bool
-  | .fLocked .. | .fCopy .. | .fMissed .. => true
-  | _ => false
-
-def T.holds (x : T) : Bool := x.isW || x.isR
-
-def T.isWriting : T → Bool
-  | .wWrite .. => true
+/-- inside an operation that writes the table -/
+def T.writing : T → Bool
+  | .wLocked .. | .wWrite .. | .wFin .. | .cLocked | .cDone | .kLocked _ | .kDone | .lRun .. | .lFin => true
   | _ => false
 
 structure S where
-  L : Nat
-  key : Option Key          -- key of the slot; none = empty / invalidated (seal or hash)
-  words : List Tok          -- the fitness stored in the slot
+  mem : Mem                 -- the table as the threads see it
+  abs : Mem                 -- ghost: the sequential cache
+  lin : List Ev             -- ghost: linearized history, newest first
   th : Tid → T
-  stored : List Tok         -- every (key, id) some insert has been started with
+  stored : List Tok         -- every (key, id) some insert / load has been started with
 
 def upd (th : Tid → T) (t : Tid) (x : T) : Tid → T := fun u => if u = t then x else th u
 
-/-- specification of std::shared_mutex::lock_shared: no writer holds -/
-def S.sharedFree (s : S) : Prop := ∀ u, (s.th u).isW = false
-/-- specification of std::shared_mutex::lock: nobody holds -/
-def S.exclFree (s : S) : Prop := ∀ u, (s.th u).holds = false
+def S.init (c : Cfg) : S := ⟨Mem.init c, Mem.init c, [], fun _ => .idle, []⟩
 
-def S.init (L : Nat) : S := ⟨L, none, List.replicate L (0, 0), fun _ => .idle, []⟩
+inductive Act where
+  | fAcquire (t : Tid) (k : Key) | fCheck (t : Tid) | fCopyWord (t : Tid) | fRelease (t : Tid) | fReturn (t : Tid)
+  | pMiss (t : Tid) | pHit (t : Tid) | pReturn (t : Tid)
+  | wAcquire (t : Tid) (k : Key) (id : Nat) | wKey (t : Tid) | wWord (t : Tid) | wSeal (t : Tid) | wRelease (t : Tid)
+  | cAcquire (t : Tid) | cBump (t : Tid) | cRelease (t : Tid)
+  | kAcquire (t : Tid) (k : Key) | kInv (t : Tid) | kRelease (t : Tid)
+  | sAcquire (t : Tid) | sStart (t : Tid) | sSlot (t : Tid) | sEnd (t : Tid) | sReturn (t : Tid)
+  | lAcquire (t : Tid) (sl : Nat) (es : List Tok) (ok : Bool) | lEntry (t : Tid) | lSeal (t : Tid) | lRelease (t : Tid)
+deriving Repr
 
-/-- steps common to both variants -/
-inductive Common : S → S → Prop where
-  | fAcquire (s t k) : s.th t = .idle → s.sharedFree → Common s { s with th := upd s.th t (.fLocked k) }
-  | fMiss (s t k) : s.th t = .fLocked k → s.key ≠ some k → Common s { s with th := upd s.th t (.fMissed k) }
-  | fMissRelease (s t k) : s.th t = .fMissed k → Common s { s with th := upd s.th t (.fDone k none) }
-  | fReturn (s t k r) : s.th t = .fDone k r → Common s { s with th := upd s.th t .idle }
-  | wAcquire (s t k id) : s.th t = .idle → s.exclFree →
-      Common s { s with th := upd s.th t (.wLocked k id), stored := (k, id) :: s.stored }
-  | wKey (s t k id) : s.th t = .wLocked k id → Common s { s with th := upd s.th t (.wWrite k id 0), key := none }
-  | wWord (s t k id i) : s.th t = .wWrite k id i → i < s.L →
-      Common s { s with th := upd s.th t (.wWrite k id (i + 1)), words := s.words.set i (k, id) }
-  | wRelease (s t k id) : s.th t = .wWrite k id s.L → Common s { s with th := upd s.th t .idle, key := some k }
-  | cAcquire (s t) : s.th t = .idle → s.exclFree → Common s { s with th := upd s.th t .cLocked }
-  | cInvalidate (s t) : s.th t = .cLocked → Common s { s with th := upd s.th t .cCleared, key := none }
-  | cRelease (s t) : s.th t = .cCleared → Common s { s with th := upd s.th t .idle }
+def Act.tid : Act → Tid
+  | .fAcquire t _ | .fCheck t | .fCopyWord t | .fRelease t | .fReturn t | .pMiss t | .pHit t | .pReturn t
+  | .wAcquire t .. | .wKey t | .wWord t | .wSeal t | .wRelease t | .cAcquire t | .cBump t | .cRelease t
+  | .kAcquire t _ | .kInv t | .kRelease t | .sAcquire t | .sStart t | .sSlot t | .sEnd t | .sReturn t
+  | .lAcquire t .. | .lEntry t | .lSeal t | .lRelease t => t
 
-/-- find copies the value while it holds the shared lock (find returns by value) -/
-inductive StepV : S → S → Prop where
-  | common (s s') : Common s s' → StepV s s'
-  | fHit (s t k) : s.th t = .fLocked k → s.key = some k → StepV s { s with th := upd s.th t (.fCopy k []) }
-  | fCopyWord (s t k acc) (w : Tok) : s.th t = .fCopy k acc → s.words[acc.length]? = some w →
-      StepV s { s with th := upd s.th t (.fCopy k (acc ++ [w])) }
-  | fRelease (s t k acc) : s.th t = .fCopy k acc → acc.length = s.L →
-      StepV s { s with th := upd s.th t (.fDone k (some acc)) }
+/-- the lock an action asks for (`.none`: the action is not an acquisition, or takes no lock) -/
+def acq (d : Disc) : Act → LK
+  | .fAcquire .. => d.find
+  | .wAcquire .. => d.insert
+  | .cAcquire _ => d.clear
+  | .kAcquire .. => d.clearKey
+  | .sAcquire _ => d.save
+  | .lAcquire .. => d.load
+  | _ => .none
 
-/-- find releases the lock and hands out a reference; the caller copies afterwards -/
-inductive StepR : S → S → Prop where
-  | common (s s') : Common s s' → StepR s s'
-  | fHitRef (s t k) : s.th t = .fLocked k → s.key = some k → StepR s { s with th := upd s.th t (.rCopy k []) }
-  | rCopyWord (s t k acc) (w : Tok) : s.th t = .rCopy k acc → s.words[acc.length]? = some w →
-      StepR s { s with th := upd s.th t (.rCopy k (acc ++ [w])) }
-  | rDone (s t k acc) : s.th t = .rCopy k acc → acc.length = s.L →
-      StepR s { s with th := upd s.th t (.fDone k (some acc)) }
+/-- what an action does (the lock's availability is `Free`, below) -/
+def step1 (d : Disc) (c : Cfg) (s : S) : Act → Option S
+  | .fAcquire t k =>
+    if s.th t = .idle then some { s with th := upd s.th t (.fLocked k) } else none
+  | .fCheck t =>
+    match s.th t with
+    | .fLocked k =>
+      -- linearization point of find: the specification's answer is recorded; the code compares
+      match s.mem.find c k with
+      | some _ => some { s with lin := .find t k (s.abs.find c k) :: s.lin,
+                                th := upd s.th t (if d.findRef then .rCopy k [] else .fCopy k []) }
+      | none => some { s with lin := .find t k (s.abs.find c k) :: s.lin, th := upd s.th t (.fMissed k) }
+    | _ => none
+  | .fCopyWord t =>
+    match s.th t with
+    | .fCopy k acc =>
+      match (s.mem.tab (c.idx k)).words[acc.length]? with
+      | some w => some { s with th := upd s.th t (.fCopy k (acc ++ [w])) }
+      | none => none
+    | .rCopy k acc =>
+      match (s.mem.tab (c.idx k)).words[acc.length]? with
+      | some w => some { s with th := upd s.th t (.rCopy k (acc ++ [w])) }
+      | none => none
+    | _ => none
+  | .fRelease t =>
+    match s.th t with
+    | .fCopy k acc => if acc.length = c.L then some { s with th := upd s.th t (.fDone k (some acc)) } else none
+    | .rCopy k acc => if acc.length = c.L then some { s with th := upd s.th t (.fDone k (some acc)) } else none
+    | .fMissed k => some { s with th := upd s.th t (.fDone k none) }
+    | _ => none
+  | .fReturn t =>
+    match s.th t with
+    | .fDone _ _ => some { s with th := upd s.th t .idle }
+    | _ => none
+  | .pMiss t =>
+    match s.th t with
+    | .fDone k none => some { s with th := upd s.th t (.pEval k) }
+    | _ => none
+  | .pHit t =>
+    match s.th t with
+    | .fDone k (some v) => some { s with th := upd s.th t (.pDone k v) }
+    | _ => none
+  | .pReturn t =>
+    match s.th t with
+    | .pDone _ _ => some { s with th := upd s.th t .idle }
+    | _ => none
+  | .wAcquire t k id =>
+    -- linearization point of insert
+    if s.th t = .idle ∨ s.th t = .pEval k then
+      some { s with th := upd s.th t (.wLocked k id (decide (s.th t = .pEval k))), stored := (k, id) :: s.stored,
+                    abs := s.abs.insert c k (val c k id), lin := .insert t k id :: s.lin }
+    else none
+  | .wKey t =>
+    match s.th t with
+    | .wLocked k id p =>
+      some { s with th := upd s.th t (.wWrite k id p 0),
+                    mem := s.mem.modSlot (c.idx k) (fun x => { x with key := some k }) }
+    | _ => none
+  | .wWord t =>
+    match s.th t with
+    | .wWrite k id p i =>
+      if i < c.L then
+        some { s with th := upd s.th t (.wWrite k id p (i + 1)),
+                      mem := s.mem.modSlot (c.idx k) (fun x => { x with words := x.words.set i (k, id) }) }
+      else none
+    | _ => none
+  | .wSeal t =>
+    match s.th t with
+    | .wWrite k id p i =>
+      if i = c.L then
+        some { s with th := upd s.th t (.wFin k id p),
+                      mem := s.mem.modSlot (c.idx k) (fun x => { x with sl := s.mem.ep }) }
+      else none
+    | _ => none
+  | .wRelease t =>
+    match s.th t with
+    | .wFin k id p => some { s with th := upd s.th t (if p then .pDone k (val c k id) else .idle) }
+    | _ => none
+  | .cAcquire t =>
+    if s.th t = .idle then
+      some { s with th := upd s.th t .cLocked, abs := s.abs.clear c, lin := .clear t :: s.lin }
+    else none
+  | .cBump t =>
+    match s.th t with
+    | .cLocked => some { s with th := upd s.th t .cDone, mem := s.mem.clear c }
+    | _ => none
+  | .cRelease t =>
+    match s.th t with
+    | .cDone => some { s with th := upd s.th t .idle }
+    | _ => none
+  | .kAcquire t k =>
+    if s.th t = .idle then
+      some { s with th := upd s.th t (.kLocked k), abs := s.abs.clearKey c k, lin := .clearKey t k :: s.lin }
+    else none
+  | .kInv t =>
+    match s.th t with
+    | .kLocked k => some { s with th := upd s.th t .kDone, mem := s.mem.clearKey c k }
+    | _ => none
+  | .kRelease t =>
+    match s.th t with
+    | .kDone => some { s with th := upd s.th t .idle }
+    | _ => none
+  | .sAcquire t =>
+    if s.th t = .idle then some { s with th := upd s.th t .sLocked } else none
+  | .sStart t =>
+    match s.th t with
+    | .sLocked => some { s with th := upd s.th t (.sRun c.dom []), lin := .save t (s.abs.save c) :: s.lin }
+    | _ => none
+  | .sSlot t =>
+    match s.th t with
+    | .sRun (i :: rest) out =>
+      some { s with th := upd s.th t (.sRun rest (out ++ (saveSlot s.mem.ep (s.mem.tab i)).toList)) }
+    | _ => none
+  | .sEnd t =>
+    match s.th t with
+    | .sRun [] out => some { s with th := upd s.th t (.sDone out) }
+    | _ => none
+  | .sReturn t =>
+    match s.th t with
+    | .sDone _ => some { s with th := upd s.th t .idle }
+    | _ => none
+  | .lAcquire t sl es ok =>
+    if s.th t = .idle then
+      some { s with th := upd s.th t (.lRun sl es ok), stored := es ++ s.stored,
+                    abs := s.abs.load c sl es ok, lin := .load t sl es ok :: s.lin }
+    else none
+  | .lEntry t =>
+    match s.th t with
+    | .lRun sl ((k, id) :: rest) ok =>
+      some { s with th := upd s.th t (.lRun sl rest ok),
+                    mem := s.mem.modSlot (c.idx k) (fun _ => ⟨some k, sl, val c k id⟩) }
+    | _ => none
+  | .lSeal t =>
+    match s.th t with
+    | .lRun sl [] ok => some { s with th := upd s.th t .lFin, mem := { s.mem with ep := if ok then sl else s.mem.ep } }
+    | _ => none
+  | .lRelease t =>
+    match s.th t with
+    | .lFin => some { s with th := upd s.th t .idle }
+    | _ => none
 
-inductive Reach (step : S → S → Prop) (s0 : S) : S → Prop where
-  | refl : Reach step s0 s0
-  | tail (s s') : Reach step s0 s → step s s' → Reach step s0 s'
+/-- specification of std::shared_mutex: `lock_shared` succeeds iff nobody holds the lock exclusively,
+    `lock` iff nobody holds it at all; taking no lock always succeeds -/
+def Free (d : Disc) (th : Tid → T) : LK → Prop
+  | .none => True
+  | .shared => ∀ u, lockOf d (th u) ≠ .excl
+  | .excl => ∀ u, lockOf d (th u) = .none
+
+/-- one atomic step of one thread -/
+def Step (d : Disc) (c : Cfg) (s s' : S) : Prop := ∃ a, Free d s.th (acq d a) ∧ step1 d c s a = some s'
+
+inductive Reach (d : Disc) (c : Cfg) : S → Prop where
+  | init : Reach d c (S.init c)
+  | step (s s') : Reach d c s → Step d c s s' → Reach d c s'
 
 end Vita.C15
